@@ -12,6 +12,7 @@ import (
 	"github.com/gebn/bmc/pkg/iana"
 	"github.com/gebn/bmc/pkg/ipmi"
 	"github.com/google/gopacket"
+	"github.com/google/gopacket/layers"
 
 	"verif/env"
 	"verif/rep"
@@ -80,6 +81,79 @@ func serialise(ls ...gopacket.SerializableLayer) ([]byte, error) {
 	return append([]byte{}, buf.Bytes()...), nil
 }
 
+// c08Stacked decodes an RMCP datagram carrying the wrapper bytes b through the
+// library's layered decode paths - gopacket.NewPacket from RMCP (registered
+// decoders, session selector) and a DecodingLayerParser assembled as the root
+// package does - and has same judge the wrapper layer each path yields.
+func c08Stacked(b []byte, plus bool, same func(gopacket.Layer) string, h hash.Hash) string {
+	dg := append([]byte{0x06, 0x00, 0xFF, 0x07}, b...)
+	want := ipmi.LayerTypeV1Session
+	if plus {
+		want = ipmi.LayerTypeV2Session
+	}
+	if h == nil {
+		// the registered decoder has no integrity algorithm to verify with: only
+		// unauthenticated wrappers can go this way
+		var pkt gopacket.Packet
+		if p := guard(func() { pkt = gopacket.NewPacket(append([]byte{}, dg...), layers.LayerTypeRMCP, gopacket.Default) }); p != "" {
+			return "gopacket.NewPacket panicked: " + p
+		}
+		l := pkt.Layer(want)
+		if l == nil {
+			return fmt.Sprintf("gopacket.NewPacket from RMCP on % x yields no %v layer (layers %v, error %v)", dg, want, pkt.Layers(), pkt.ErrorLayer())
+		}
+		if d := same(l); d != "" {
+			return fmt.Sprintf("gopacket.NewPacket from RMCP on % x yields a different value: %s", dg, d)
+		}
+		// what follows the wrapper must carry the inner payload
+		enc := false
+		if z, ok := l.(*ipmi.V2Session); ok {
+			enc = z.Encrypted // needs the session's cipher: nothing can follow here
+		}
+		if pl := l.LayerPayload(); len(pl) > 0 && !enc {
+			ls := pkt.Layers()
+			if ls[len(ls)-1] == l {
+				return fmt.Sprintf("gopacket.NewPacket from RMCP on % x: the packet ends at the wrapper, its %d-byte inner payload is in no layer", dg, len(pl))
+			}
+		}
+	}
+	var rmcp layers.RMCP
+	var sel ipmi.SessionSelector
+	var v1 ipmi.V1Session
+	v2 := ipmi.V2Session{IntegrityAlgorithm: h}
+	var pay gopacket.Payload
+	dlc := gopacket.DecodingLayerContainer(gopacket.DecodingLayerArray(nil))
+	dlc = dlc.Put(&rmcp)
+	dlc = dlc.Put(&sel)
+	dlc = dlc.Put(&v1)
+	dlc = dlc.Put(&v2)
+	dlc = dlc.Put(&pay)
+	decode := dlc.LayersDecoder(rmcp.LayerType(), gopacket.NilDecodeFeedback)
+	var decoded []gopacket.LayerType
+	var err error
+	var typ gopacket.LayerType
+	if p := guard(func() { typ, err = decode(append([]byte{}, dg...), &decoded) }); p != "" {
+		return "DecodingLayerParser panicked: " + p
+	}
+	found := false
+	for _, t := range decoded {
+		if t == want {
+			found = true
+		}
+	}
+	if !found {
+		return fmt.Sprintf("layered decode (RMCP, session selector, wrappers) of % x did not reach the %v layer: decoded %v, stopped at %v, err %v", dg, want, decoded, typ, err)
+	}
+	var l gopacket.Layer = &v1
+	if plus {
+		l = &v2
+	}
+	if d := same(l); d != "" {
+		return fmt.Sprintf("layered decode of % x yields a different value: %s", dg, d)
+	}
+	return ""
+}
+
 var u32s = []uint32{0, 1, 0xFF, 0x100, 0x7FFFFFFF, 0x80000000, 0xFFFFFFFE, 0xFFFFFFFF, 0x11223344}
 
 func c08One(c c08Case) string {
@@ -106,6 +180,15 @@ func c08One(c c08Case) string {
 		b2, err := serialise(&y, gopacket.Payload(y.LayerPayload()))
 		if err != nil || !bytes.Equal(b, b2) {
 			return fmt.Sprintf("re-serialisation % x differs from % x (%v)", b2, b, err)
+		}
+		if msg := c08Stacked(b, false, func(l gopacket.Layer) string {
+			z, ok := l.(*ipmi.V1Session)
+			if !ok || z.AuthType != x.AuthType || z.Sequence != x.Sequence || z.ID != x.ID || z.AuthCode != x.AuthCode || !bytes.Equal(z.LayerPayload(), inner) {
+				return fmt.Sprintf("wrapper %+v payload % x", l, l.LayerPayload())
+			}
+			return ""
+		}, nil); msg != "" {
+			return msg
 		}
 	case "v2":
 		// p: payload type sel, flags (bit0 enc, bit1 auth), sid, seq, integ alg, key
@@ -164,6 +247,19 @@ func c08One(c c08Case) string {
 		b2, err := serialise(y, gopacket.Payload(y.LayerPayload()))
 		if err != nil || !bytes.Equal(b, b2) {
 			return fmt.Sprintf("re-serialisation % x differs from % x (%v)", b2, b, err)
+		}
+		var h hash.Hash
+		if x.Authenticated {
+			h = integHash(p[4], p[5])
+		}
+		if msg := c08Stacked(b, true, func(l gopacket.Layer) string {
+			z, ok := l.(*ipmi.V2Session)
+			if !ok || z.PayloadDescriptor != x.PayloadDescriptor || z.Encrypted != x.Encrypted || z.Authenticated != x.Authenticated || z.ID != x.ID || z.Sequence != x.Sequence || !bytes.Equal(z.LayerPayload(), inner) {
+				return fmt.Sprintf("wrapper %+v payload % x", l, l.LayerPayload())
+			}
+			return ""
+		}, h); msg != "" {
+			return msg
 		}
 	case "v2hist":
 		// p: kind of packet the wrapper's hash met before, integ alg, key. A
